@@ -40,7 +40,12 @@ type AckScenario struct {
 	Prompt bool `json:"prompt,omitempty"`
 	// EndBy: how the run ends while calls may still be waiting: "close" (default, the transport is closed) or
 	// "disconnect" (the application calls Disconnect): either way a call whose acknowledgement never came does not succeed
-	EndBy   string        `json:"endBy,omitempty"`
+	EndBy string `json:"endBy,omitempty"`
+	// Race "pubrecAtDeadline": Rounds times a QoS 2 Publish whose PUBREC has been read and dispatched when its context is
+	// cancelled -- both inside Transport.Write of the PUBLISH, so that the call finds acknowledgement and cancellation
+	// pending at once; PUBCOMP never comes.  RaceNil counts the calls that reported success.
+	Race    string        `json:"race,omitempty"`
+	Rounds  int           `json:"rounds,omitempty"`
 	Calls2  []AckCall     `json:"calls2,omitempty"`
 	Script2 []AckStep     `json:"script2,omitempty"`
 	Batch   []AckScenario `json:"batch,omitempty"`
@@ -53,6 +58,10 @@ type AckResult struct {
 	Evs   []map[string]interface{} `json:"evs"`
 	Err   string                   `json:"err"`
 	Batch []*AckResult             `json:"batch,omitempty"`
+	// race mode
+	Race       string `json:"race,omitempty"`
+	RaceRounds int    `json:"raceRounds,omitempty"`
+	RaceNil    int    `json:"raceNil,omitempty"`
 }
 
 func init() { register("acks", runAcksRaw) }
@@ -74,7 +83,53 @@ func runAcksRaw(raw json.RawMessage) interface{} {
 
 var ackFirst = map[string]byte{"PUBACK": 0x40, "PUBREC": 0x50, "PUBCOMP": 0x70, "UNSUBACK": 0xB0}
 
+func runAckRace(sc *AckScenario) *AckResult {
+	res := &AckResult{ID: sc.ID, Calls: []AckCall{}, Evs: []map[string]interface{}{}, Race: sc.Race, RaceRounds: sc.Rounds}
+	for r := 0; r < sc.Rounds; r++ {
+		w := netsim.NewWorld(netsim.Plan{Writes: []netsim.FaultRule{{P: "PUBREL", N: 1, O: "dropAck"}}})
+		w.PromptAcks = true
+		root, rootCancel := context.WithTimeout(context.Background(), 5*time.Second)
+		cli, err := w.Dial(root)
+		if err != nil {
+			res.Err = err.Error()
+			rootCancel()
+			return res
+		}
+		if _, err := cli.Connect(root, "acks-race"); err != nil {
+			res.Err = "connect: " + err.Error()
+			rootCancel()
+			return res
+		}
+		cctx, ccancel := context.WithCancel(root)
+		w.AfterPrompt = func(_ *netsim.Transport, p *netsim.Pkt) {
+			if p.Type == 0x30 {
+				ccancel()
+			}
+		}
+		ret := make(chan error, 1)
+		go func() { ret <- cli.Publish(cctx, &mqtt.Message{Topic: "r", QoS: mqtt.QoS2, Payload: []byte("x")}) }()
+		select {
+		case err := <-ret:
+			if err == nil {
+				res.RaceNil++
+			}
+		case <-time.After(3 * time.Second):
+			res.Err = "race round: Publish did not return after its context was cancelled"
+		}
+		ccancel()
+		cli.Close()
+		rootCancel()
+		if res.Err != "" {
+			return res
+		}
+	}
+	return res
+}
+
 func runAcks(sc *AckScenario) *AckResult {
+	if sc.Race != "" {
+		return runAckRace(sc)
+	}
 	res := &AckResult{ID: sc.ID, Calls: sc.Calls, Evs: []map[string]interface{}{}}
 	w := netsim.NewWorld(netsim.Plan{})
 	w.ManualAcks = !sc.Prompt
